@@ -411,11 +411,18 @@ def excluded_rules(ctx, F, rid):
                 cb_ = F.body(o.key) if o.kind == 'agg' else None
                 if cb_ is not None and flow_of(cb_).calls_to('plan::glob_match'):
                     comp_closure = (qb, qt, cb_)
-    if not (len(globs) == 2 or (len(globs) == 1 and comp_closure is not None)) or n_slash != 1 or not empties:
+    if not (len(globs) == 2 or (len(globs) == 1 and comp_closure is not None)) or n_slash != 1:
         ctx.missing(rid, 'is_excluded: two glob_match calls, contains(\'/\'), is_empty, trim_end_matches(\'/\') (found %d/%d/%d/%d)' % (len(globs), n_slash, len(empties), len(trims)))
+    # (an empty pattern is slash-free and matches no Normal component, so skipping it is an optimisation: when the code
+    # tests for it, the matches must sit behind that test; when it does not, nothing is lost)
     e_false = set()
     for eb, et in empties:
         e_false |= fl.outcomes(eb).get('false', set())
+
+    class _G:
+        @staticmethod
+        def edges_guard(edges, blk):
+            return True if (not empties and edges is e_false) else cfg.edges_guard(edges, blk)
     trues = [bi for bi in cfg.reachable() for st in b.blocks[bi]['stmts']
              if st['dst']['l'] == 0 and st['rv']['k'] == 'use' and st['rv']['ops'][0]['k'] == 'const' and st['rv']['ops'][0].get('v') == 1]
     kinds = set()
@@ -432,7 +439,7 @@ def excluded_rules(ctx, F, rid):
         comp = bool(to) and all(o.kind == 'call' and o.key == 'std::iter::Iterator::next' for o in to)
         if whole:
             kinds.add('whole')
-            ok = pat_ok and cfg.edges_guard(c_true, gb) and cfg.edges_guard(e_false, gb)
+            ok = pat_ok and cfg.edges_guard(c_true, gb) and _G.edges_guard(e_false, gb)
             ctx.check(ok, rid, 'is_excluded:whole-path', 'glob_match(trimmed pat, whole rel) only if pat contains \'/\' and is non-empty',
                       'whole-path matching is not confined to non-empty patterns containing a slash', term_loc(b, gb))
         elif comp:
@@ -455,7 +462,7 @@ def excluded_rules(ctx, F, rid):
                     for x in io:
                         if x.kind == 'call' and x.key == 'std::path::Path::components':
                             it_ok = all(y.kind == 'param' and y.key == rel_i for y in call_arg_origins(fl, x.bb, 0))
-            ok = pat_ok and normal and it_ok and cfg.edges_guard(c_false, gb) and cfg.edges_guard(e_false, gb)
+            ok = pat_ok and normal and it_ok and cfg.edges_guard(c_false, gb) and _G.edges_guard(e_false, gb)
             ctx.check(ok, rid, 'is_excluded:per-component', 'glob_match(trimmed pat, each Normal component of rel) only if pat has no \'/\' and is non-empty',
                       'per-component matching is not over every Normal component for non-empty slash-free patterns (normal=%s, components(rel)=%s)' % (normal, it_ok), term_loc(b, gb))
         else:
@@ -490,17 +497,21 @@ def excluded_rules(ctx, F, rid):
                         if rv['k'] == 'agg' and rv.get('ak') == 'closure' and norm(rv['def']) == cb_.path and int(o.key) < len(rv['ops']):
                             po = fl.origins(rv['ops'][int(o.key)])
                             pat_ok = bool(po) and all(x.kind == 'call' and 'trim_end_matches' in x.key for x in po if x.kind != 'comb')
-        ok = pat_ok and normal and val_ok and cfg.edges_guard(c_false, qb) and cfg.edges_guard(e_false, qb)
+        ok = pat_ok and normal and val_ok and cfg.edges_guard(c_false, qb) and _G.edges_guard(e_false, qb)
         ctx.check(ok, rid, 'is_excluded:per-component', 'components(rel).any(|c| Normal(c) && glob_match(trimmed pat, c)) only if pat has no \'/\' and is non-empty',
                   'per-component matching is not over every Normal component for non-empty slash-free patterns (normal=%s, value=%s, pattern=%s)' % (normal, val_ok, pat_ok), term_loc(b, qb))
         globs = globs + [(qb, qt)]       # for the "true only on a hit" / "hit returns true" rules the any() call stands for the match
+    hit_edges = set()
+    for gb, _ in globs:
+        hit_edges |= fl.outcomes(gb).get('true', set())
     for tb_ in trues:
-        g = any(fl.outcomes(gb).get('true') and cfg.edges_guard(fl.outcomes(gb)['true'], tb_) for gb, _ in globs)
+        g = bool(hit_edges) and cfg.edges_guard(hit_edges, tb_)
         ctx.check(g, rid, 'is_excluded:true-only-on-match', 'returns true only on a glob_match hit', 'is_excluded can return true without a pattern match', loc(b, b.lo))
     # false only after all patterns were tried; a match returns true immediately
     outer = None
     for nb, nt in fl.calls_to('std::iter::Iterator::next'):
-        if all(o.kind == 'param' and o.key == exc_i for o in fl.origins(nt['args'][0])):
+        src_ = [o for o in (fl.origins(nt['args'][0]) if all(o.kind == 'param' for o in fl.origins(nt['args'][0])) else iterated_collection(fl, nb)) if o.kind != 'comb']
+        if src_ and all(o.kind == 'param' and o.key == exc_i for o in src_):
             outer = nb
     falses = [bi for bi in cfg.reachable() for st in b.blocks[bi]['stmts']
               if st['dst']['l'] == 0 and st['rv']['k'] == 'use' and st['rv']['ops'][0]['k'] == 'const' and st['rv']['ops'][0].get('v') == 0]
